@@ -34,6 +34,13 @@ func Register() {
 	})
 }
 
+// Small is the plain driver with small leveldb buffers (the defaults reserve 64 MiB per
+// database, too much for thousands of short-lived stores in one process).
+const Small = Name + `:{"WriteBuffer":2097152,"BlockCacheCapacity":1048576}`
+
+// SmallCfg is the same configuration string for the fault-injecting driver.
+const SmallCfg = `{"WriteBuffer":2097152,"BlockCacheCapacity":1048576}`
+
 // Opts returns shed options selecting the plain driver.
 func Opts() *shed.Options { Register(); return &shed.Options{Driver: Name} }
 
@@ -181,7 +188,7 @@ type crashBatch struct {
 }
 
 func (b *crashBatch) Put(k driver.Key, v driver.Value) error { b.n++; return b.Batching.Put(k, v) }
-func (b *crashBatch) Delete(k driver.Key) error               { b.n++; return b.Batching.Delete(k) }
+func (b *crashBatch) Delete(k driver.Key) error              { b.n++; return b.Batching.Delete(k) }
 
 func (b *crashBatch) Commit() error {
 	if !b.f.allow("commit") {
